@@ -222,6 +222,15 @@ def f_r4_order(schema: Schema, rep: Report):
         rep.check("F-R4", "update_args:order-guard", False, f"no raise guarded by `{idx} <= {prev_n}` in the reducer: out-of-order children are accepted", f"{rel}:{inner.lineno}")
         return
     strict = True
+    # does the order test exempt anything (list members after list members)?  Then the position cursor can move BACK
+    # inside a run of list members, and a strict test against the predecessor no longer rules out a repeat further on
+    # (LIST_A, X, LIST_B, LIST_A, X): only a raise on `key in kwargs` does
+    exempt_exists = False
+    for sn, pn in pstores:
+        for q in ppl:
+            cb = q.conds_before(pn.id)
+            if cb is not None and both_list is not None and PT.implies(cb, after) is not True and PT.implies(cb, strict_goal) is not False:
+                exempt_exists = True
     for sn, pn in pstores:
         kind = "kwargs" if sn in kwstores else "args"
         ordered = True
@@ -243,12 +252,14 @@ def f_r4_order(schema: Schema, rep: Report):
                     strict = False
                     if PT.implies(cb, PT.Cond("not", [dup_atom])) is not True:
                         dup_ok_here = False
+            elif kind == "kwargs" and exempt_exists and PT.implies(cb, PT.Cond("not", [dup_atom])) is not True:
+                dup_ok_here = False
         if undecided and ordered:
             rep.note(f"F-R4 undecided: too many conditions before the {kind} store")
             continue
         rep.check("F-R4", f"update_args:order-guard-dominates:{kind}", ordered, "a child value is stored on a path on which neither `previous position < this position` nor `both are list members` has been established: out-of-order children are accepted (or the order test is exempted by something else)" if not ordered else "", f"{rel}:{sn.stmt.lineno}")
         if kind == "kwargs":
-            rep.check("F-R4", "update_args:duplicate-single-child-rejected", dup_ok_here, "a second occurrence of a non-repeatable child is accepted: the order test is not strict (<) and no raise on `key in kwargs` precedes the store" if not dup_ok_here else ("strict order test" if strict else "separate duplicate raise"), f"{rel}:{sn.stmt.lineno}")
+            rep.check("F-R4", "update_args:duplicate-single-child-rejected", dup_ok_here, "a second occurrence of a non-repeatable child is accepted: no raise on `key in kwargs` precedes the store, and the order test alone does not rule a repeat out (it is not strict, or it exempts runs of list members, inside which the position moves backwards: LIST_A, X, LIST_B, LIST_A, X)" if not dup_ok_here else ("strict order test" if strict else "separate duplicate raise"), f"{rel}:{sn.stmt.lineno}")
     # the accumulator is handed back unchanged only for a tag the class does not declare (failed lookup); a DECLARED
     # child that is skipped this way leaves no trace - its position is not recorded and it is not counted, so a
     # duplicate, an out-of-order sibling or a second member of a mutex group after it is accepted
